@@ -122,6 +122,10 @@ def getTags (e : PlanEnv) (fetch branch : Bool) (s : PState) : PState × Outcome
     if o2 == .failed then (s2, .failed)
     else vcsCall e (.cmd (if branch then "ls_tags_branch" else "ls_tags")) s2
 
+/-- were the tags actually listed by `getTags e false false s`?  Without a usable VCS (no VCS directory, or the
+    probe failing) `get_tags` returns the empty list, and an empty list cannot contain the new version. -/
+def tagsListed (e : PlanEnv) (s : PState) : Bool := (isUsable e s).2
+
 /-- `add` for every configured file, stopping at the first failure -/
 def addAll (e : PlanEnv) : List Str → PState → PState × Outcome
   | [], s => (s, .ok)
@@ -167,7 +171,7 @@ def plan (c0 : PlanCfg) (a : PlanCli) (e : PlanEnv) : List Ev × Nat :=
       let (s2, o2) :=
         if c.scopeBranch || a.setVersion then getTags e false false s1 else (s1, Outcome.ok)
       if o2 == .failed then (s2.evs.reverse, 1)
-      else if (c.scopeBranch || a.setVersion) && !e.uniqueOk then (s2.evs.reverse, 1)
+      else if (c.scopeBranch || a.setVersion) && tagsListed e s1 && !e.uniqueOk then (s2.evs.reverse, 1)
       else if a.dry then (s2.evs.reverse, if e.rewriteOk then 0 else 1)
       else
         let (s3, usable) := if c.commit then isUsable e s2 else (s2, false)
